@@ -886,7 +886,7 @@ def d11_iter_any(f):
     return f
 
 
-def d13_retain(f, recv, elem_ty, captures, fname='verif_retain_0', call_prefix=''):
+def d13_retain(f, recv, elem_ty, captures, fname='verif_retain_0', call_prefix='', recv_is_ref=False):
     """D13: `RECV.retain(|x| BODY);` where BODY mutates captured state (FnMut) ->
          let verif_all = shim_take_all(&mut RECV);
          for x in verif_all.into_iter() { if FNAME(&x, CAPTURES) { RECV.push(x); } }
@@ -904,7 +904,7 @@ def d13_retain(f, recv, elem_ty, captures, fname='verif_retain_0', call_prefix='
         f._lost('D13 %s.retain(|x| {..})' % recv)
     bo = m.end() - 1
     bc = match_brace(t, mask, bo)
-    tail = re.match(r'\s*\)\s*;', t[bc + 1:])
+    tail = re.match(r'\s*\)\s*;', t[bc + 1:]) or re.match(r'\s*\)(?=\s*\})', t[bc + 1:])     # statement, or the last expression of a block
     if not tail:
         f._lost('D13: retain call not in statement position')
     body = t[bo:bc + 1]
@@ -912,7 +912,7 @@ def d13_retain(f, recv, elem_ty, captures, fname='verif_retain_0', call_prefix='
     ind = re.search(r'[ \t]*$', t[:m.start()]).group(0)
     call_args = ''.join(', ' + c[2] for c in captures)
     new = ('let verif_all = shim_take_all(&mut %s);\n%sfor %s in verif_all.into_iter() {\n%s    if %s(&%s%s) {\n%s        %s.push(%s);\n%s    }\n%s}'
-           % (recv, ind, var, ind, call_prefix + fname, var, call_args, ind, recv, var, ind, ind))
+           % (('*' + recv) if recv_is_ref else recv, ind, var, ind, call_prefix + fname, var, call_args, ind, recv, var, ind, ind))
     f.text = t[:m.start()] + new + t[bc + 1 + tail.end():]
     params = ''.join(', %s: %s' % (c[0], c[1]) for c in captures)
     lifted = 'fn %s(%s: &%s%s) -> bool %s' % (fname, var, elem_ty, params, body)
